@@ -349,8 +349,8 @@ func runWcase(c wcase) {
 			return
 		}
 	}
-	if c.api == "upload" && c.prev != nil && c.prevImm && !c.imm {
-		return // mutable upload over an immutable object: refused for another reason
+	if c.api == "upload" && c.prev != nil && c.prevImm && !(c.imm && bytes.Equal(old, c.d.b)) {
+		return // an immutable object holds other bytes: the upload is refused whatever the fault
 	}
 	rerr := put(append([]byte{}, c.d.b...), c.imm)
 	got, gerr = get()
@@ -505,6 +505,10 @@ func generatedWcases(r *rand.Rand, n int) []wcase {
 			c.fault = "enospc"
 			c.limit = int64(16+r.Intn(48)) << 12
 			c.d = gen(int(c.limit)/2+r.Intn(int(c.limit)*2), r.Intn(256))
+			if c.prev != nil { // the previous object must fit
+				p := gen(1+r.Intn(int(c.limit)/4), r.Intn(256))
+				c.prev = &p
+			}
 		}
 		cs = append(cs, c)
 	}
